@@ -79,6 +79,10 @@ inductive Op where
       call (tier order, random draw, round-robin ticket are inside it), `a` the attempt's outcome -/
   | attempt (rid : Nat) (pick : List Ep → Option Ep) (a : Attempt)
 
+def dispatchOf (rid : Nat) (r : Req) (t : Ep) : Dispatch :=
+  { rid := rid, target := t.id, seen := t.status, atArrival := statusOf r.arrivalRepo t.id,
+    inCands := r.cands.any (fun c => c.id == t.id) }
+
 /-- The records the balancer is handed in this iteration. -/
 def view (v : Variant) (repo : Repo) (r : Req) : List Ep :=
   match v with
@@ -105,9 +109,7 @@ def step (v : Variant) (σ : State) : Op → State
       match pick (view v σ.repo r) with
       | none => { σ with inflight := removeReq σ.inflight rid }          -- "endpoint selection failed"
       | some t =>
-        let d : Dispatch := { rid := rid, target := t.id, seen := t.status,
-                              atArrival := statusOf r.arrivalRepo t.id, inCands := r.cands.any (fun c => c.id == t.id) }
-        let σ := { σ with log := σ.log ++ [d] }
+        let σ := { σ with log := σ.log ++ [dispatchOf rid r t] }
         let next : Req := { r with avail := r.avail.erase t.id, fuel := r.fuel - 1 }
         match a with
         | .ok _ => { σ with inflight := removeReq σ.inflight rid }
